@@ -1329,7 +1329,7 @@ func run(c *Ctx) {
 	hs = append(hs, regressionHistories(g)...)
 
 	groups := []string{"lossy-enc-same-mb", "lossy-enc-option-pairs", "larger-then-smaller", "lossless-colours", "lossless-big-then-small", "wider-then-narrower-parallel", "decode-aba", "foreign-decode", "anim-between-stills", "mixed", "parallel-lossy-enc", "preset-dither-alpha", "procs4-mixed"}
-	per := map[string]int{"lossy-enc-same-mb": 14, "lossy-enc-option-pairs": 10, "larger-then-smaller": 6, "lossless-colours": 8, "lossless-big-then-small": 10, "wider-then-narrower-parallel": 12, "decode-aba": 16, "foreign-decode": 16, "anim-between-stills": 6, "mixed": 6, "parallel-lossy-enc": 4, "preset-dither-alpha": 10, "procs4-mixed": 5}
+	per := map[string]int{"lossy-enc-same-mb": 11, "lossy-enc-option-pairs": 10, "larger-then-smaller": 6, "lossless-colours": 6, "lossless-big-then-small": 10, "wider-then-narrower-parallel": 12, "decode-aba": 12, "foreign-decode": 14, "anim-between-stills": 6, "mixed": 6, "parallel-lossy-enc": 4, "preset-dither-alpha": 10, "procs4-mixed": 5}
 	if c.Thorough() {
 		for k := range per {
 			per[k] *= 12
